@@ -3,6 +3,16 @@ package board
 // C01-1 / C02: one symbolic legal position, one symbolic pseudo-legal move.
 // Position.Move must accept exactly the legal ones and produce the successor of the rules.
 
+// tierSquare: the thorough tier takes all 64 values of a case-split square; the quick tier
+// takes six of them (corner, edge, home squares, centre), rotated by VERIF_SEED.
+func tierSquare(sq uint64) bool {
+	if !verifQuick() {
+		return true
+	}
+	s := (sq + 64 - verifSeed()%64) % 64
+	return s == 0 || s == 3 || s == 28 || s == 39 || s == 59 || s == 63
+}
+
 var refKingStep = [8]int{1, 9, 8, 7, -1, -9, -8, -7}
 
 func harnessMove(turn Color, mtype MoveType, kingMove bool) {
@@ -23,6 +33,7 @@ func harnessMove(turn Color, mtype MoveType, kingMove bool) {
 		}
 	case kingMove:
 		ksq = verifSplit(uint64(nondetU8("m.from")), 0, 63)
+		verifAssume(tierSquare(ksq))
 		dir := verifSplit(uint64(nondetU8("m.dir")), 0, 7)
 		t := int(ksq) + refKingStep[dir]
 		verifAssume(t >= 0 && t <= 63)
@@ -31,6 +42,7 @@ func harnessMove(turn Color, mtype MoveType, kingMove bool) {
 		to = uint64(t)
 	default:
 		ksq = verifSplit(uint64(nondetU8("ksq")), 0, 63)
+		verifAssume(tierSquare(ksq))
 	}
 	r := symRefPos()
 	r.pc[turn][King] = refBit(int(ksq))
@@ -86,4 +98,5 @@ func Harness_C02_W_CastleK()     { harnessMove(White, KingSideCastle, true) }
 func Harness_C02_W_CastleQ()     { harnessMove(White, QueenSideCastle, true) }
 func Harness_C02_B_CastleK()     { harnessMove(Black, KingSideCastle, true) }
 func Harness_C02_B_CastleQ()     { harnessMove(Black, QueenSideCastle, true) }
+
 
